@@ -73,7 +73,7 @@ def run_spec(job):
         builder = opts.get('builder') or ST.build
         sc, req = builder(eng, bounds, spec)
         c0 = eng.nchecks
-        dec = H.Decider(timeout_ms=opts.get('timeout_ms', 20000), seed=_W['seed'], dump_dir=opts.get('dump_dir'))
+        dec = H.Decider(timeout_ms=opts.get('timeout_ms', 20000), seed=_W['seed'], dump_dir=opts.get('dump_dir'), cross_check=opts.get('cross_check', 0))
         env = H.env_assumptions(sc)
         nice = H.nice_constraints(sc)
         runner = opts.get('runner') or ST.run
@@ -189,7 +189,7 @@ def run_spec(job):
                 if r == 'sat':
                     res['violations'].append({'signature': finding_signature('C13', ob, 'Instantiate'), 'spec': 'pure arithmetic', 'path': '-', 'reproduced': False,
                                               'diffs': ['arithmetic corollary refuted: %s' % m], 'scenario': None})
-        res['decider'] = {'queries': dec.n, 'solver_s': dec.t, 'stats': dec.stats}
+        res['decider'] = {'queries': dec.n, 'solver_s': dec.t, 'stats': dec.stats, 'cross': dec.cross, 'cross_disagreements': dec.cross_disagreements[:5], 'retries': getattr(dec, 'retries', 0)}
     except Exception as e:
         res['error'] = '%s: %s\n%s' % (type(e).__name__, e, traceback.format_exc()[-1500:])
     res['wall_s'] = time.time() - t0
@@ -232,6 +232,9 @@ def run_check(pid, tier, seed, specs, opts=None, jobs=None, level_note=None, ext
     if tier == 'thorough':
         opts.setdefault('timeout_ms', 120000)
         opts.setdefault('witness_per_spec', 60)
+        opts.setdefault('cross_check', 25)
+    else:
+        opts.setdefault('cross_check', 2)
     results = []
     joblist = [([pid], s, opts) for s in specs]
     # longest first
@@ -251,6 +254,9 @@ def finish(pid, tier, seed, results, mirtext, timing, extra_assumptions=()):
     violations, unknowns, errors, mismatches, samples = [], [], [], [], []
     functions, models_used = set(), set()
     queries = 0
+    cross = collections.Counter()
+    cross_dis = []
+    retries = 0
     solver_s = 0.0
     pruning = 0
     ok_reached = 0
@@ -271,6 +277,10 @@ def finish(pid, tier, seed, results, mirtext, timing, extra_assumptions=()):
         models_used |= set(r.get('models_used', []))
         d = r.get('decider') or {}
         queries += d.get('queries', 0)
+        for k_, v_ in (d.get('cross') or {}).items():
+            cross[k_] += v_
+        cross_dis += d.get('cross_disagreements') or []
+        retries += d.get('retries', 0)
         solver_s += d.get('solver_s', 0.0)
         pruning += r.get('pruning_checks', 0)
         ok_reached += r.get('ok_reached', 0)
@@ -309,6 +319,8 @@ def finish(pid, tier, seed, results, mirtext, timing, extra_assumptions=()):
         inconclusive.append('%d counterexample(s) did not reproduce natively (encoder/model disagreement), first: %s %s' % (len(not_reproduced), not_reproduced[0]['signature'], not_reproduced[0].get('diffs')))
     if mismatches:
         inconclusive.append('%d witness replay(s) disagree with the compiled contract, first: %s' % (len(mismatches), json.dumps(mismatches[0])[:600]))
+    if cross.get('disagree', 0) or cross.get('error', 0):
+        inconclusive.append('%d solver disagreement(s) / error(s) between z3 and cvc5 on the same SMT-LIB2 text, first: %s' % (cross.get('disagree', 0) + cross.get('error', 0), cross_dis[:1]))
     if n_obl == 0:
         inconclusive.append('no obligation was generated (vacuous run)')
     if witness.get('validated', 0) == 0:
@@ -322,6 +334,7 @@ def finish(pid, tier, seed, results, mirtext, timing, extra_assumptions=()):
             'samples': samples[:6] or [{'note': 'no obligation discharged'}],
             'paths_by_outcome': dict(total_paths), 'specs': len(results), 'obligations': n_obl, 'discharged': n_unsat,
             'obligations_by_name': dict(obl), 'exact_solver_queries': queries, 'exact_solver_s': round(solver_s, 2), 'pruning_checks_linear_abstraction': pruning,
+            'second_solver_cvc5': dict(cross), 'z3_retries_after_unknown': retries,
             'witness_replays': dict(witness), 'ok_paths_reached_natively': ok_reached,
             'functions_encoded_from_mir': sorted(functions), 'library_models_used': sorted(models_used), 'mir_sha256_16': src_hash,
             'bounds': b.describe(), 'known_findings_hit': [k['id'] for k, _ in known_hits], 'violations': [v['signature'] for v in new_viol],
